@@ -23,7 +23,7 @@ def sh(cmd, cwd=None, timeout=1200):
 
 
 def verify(src, prop):
-    name = os.path.basename(src.rstrip("/"))
+    name = os.environ.get("SEED_PREFIX", "") + os.path.basename(src.rstrip("/"))
     patch = os.path.join(src, "patch.diff")
     demos = glob.glob(os.path.join(src, "*_test.go"))
     assert os.path.exists(patch) and demos, "need patch.diff and a demo test in " + src
